@@ -15,9 +15,16 @@
      removal through a cursor, including the removal of the record the scanning cursor stands on (the cursor then
      stands on a neighbour with the pending-step marker) and the removal that unlinks a whole node: the remaining
      forward scan is the old remaining scan minus the deleted key.
-   NOT proved (open): backward scans after a mutation, and `fresh_inv` for cursors parked on the head/tail block. *)
+   - C09_db_inv_reachable (fresh_inv): in EVERY state the API-level model of one database reaches by any sequence of
+     put / delete / cursor open / move / set / delete / close calls, the chain invariant holds, node identities are
+     unique and every open cursor holds a fresh copy of its node (or of the head / tail block) with its slot in
+     range - so the hypotheses of the theorems above are met in every reachable state: C09_db_scan_stable_put/del/cdel
+     state scan stability for the very model the correspondence check runs against the implementation, for byte keys
+     and integer keys with node size and pivot regenerated from the source and no hypothesis left.
+   NOT proved (open): backward scans after a mutation (the PREV direction of the same statements). *)
 Require Import List ZArith Lia. Import ListNotations.
-Require Import IW.KV.Node IW.KV.Spec IW.KV.Node_proofs IW.KV.Cursor IW.KV.Cursor_proofs IW.KV.Stable_proofs IW.KV.ScanStable_proofs IW.KV.StableDel_proofs.
+Require Import IW.KV.Node IW.KV.Spec IW.KV.Node_proofs IW.KV.Cursor IW.KV.Cursor_proofs IW.KV.Stable_proofs IW.KV.ScanStable_proofs IW.KV.StableDel_proofs
+               IW.KV.Inv_proofs IW.KV.DbInv_proofs IW.KV.Keys IW.KV.Keys_proofs IW.KV.Inst IW.Gen.Facts.
 
 (* _sblk_addkv/_sblk_addkv2: `if (cnpos >= idx) cnpos++` keeps the cursor on its record, for every node content,
    insertion slot and cursor slot *)
@@ -225,6 +232,111 @@ Example C09_scan_stable_del_example :
   end.
 Proof.
   split; [eexists; split; [reflexivity|split; reflexivity]|]. vm_compute. repeat split.
+Qed.
+
+(* ---- every reachable state of the API-level model (KV/Inst.v, the model compared with the implementation) ---- *)
+Theorem C09_db_inv_reachable_bytes :
+  forall ops : list dbop, DbInv plain (fold_left db_step ops (db_empty plain)).
+Proof. exact (db_inv_reachable plain plain_cmp_lt_eq plain_cmp_antisym plain_cmp_trans). Qed.
+Print Assumptions C09_db_inv_reachable_bytes.
+
+Theorem C09_db_inv_reachable_intkeys :
+  forall ops : list dbop, DbInv vnummode (fold_left db_step ops (db_empty vnummode)).
+Proof. exact (db_inv_reachable vnummode vnum_cmp_lt_eq vnum_cmp_antisym vnum_cmp_trans). Qed.
+Print Assumptions C09_db_inv_reachable_intkeys.
+
+(* scan stability in every reachable state, byte keys: a successful put through the API; the cursor in `slot` stands on
+   record (k0, v0); what that cursor still has to deliver afterwards is what it had to deliver before, plus the new
+   record iff it lies ahead *)
+Theorem C09_db_scan_stable_put_bytes :
+  forall (ops : list dbop) k comp v flags ph d' slot k0 v0 fuel,
+    let d := fold_left db_step ops (db_empty plain) in
+    db_put d k comp v flags ph = (ROk, d') -> on_record d slot k0 v0 ->
+    S (length (flat key value (d_chain d))) < fuel ->
+    exists ek nv, eff_key plain k comp = (ROk, ek) /\
+      (s_get key value (cmp_of plain) (flat key value (d_chain d)) ek = None -> nv = v) /\
+      rest_of_scan d' slot fuel =
+      match cmp_of plain k0 ek with
+      | Lt => s_put key value (cmp_of plain) (rest_of_scan d slot fuel) ek nv
+      | _ => rest_of_scan d slot fuel
+      end.
+Proof.
+  intros ops k comp v flags ph d' slot k0 v0 fuel d.
+  apply (db_scan_stable_put plain plain_cmp_lt_eq plain_cmp_antisym plain_cmp_trans).
+  apply C09_db_inv_reachable_bytes.
+Qed.
+Print Assumptions C09_db_scan_stable_put_bytes.
+
+Theorem C09_db_scan_stable_del_bytes :
+  forall (ops : list dbop) k comp d' slot k0 v0 fuel,
+    let d := fold_left db_step ops (db_empty plain) in
+    db_del d k comp = (ROk, d') -> on_record d slot k0 v0 ->
+    S (length (flat key value (d_chain d))) < fuel ->
+    exists ek, eff_key plain k comp = (ROk, ek) /\
+      rest_of_scan d' slot fuel = s_del key value (cmp_of plain) (rest_of_scan d slot fuel) ek.
+Proof.
+  intros ops k comp d' slot k0 v0 fuel d.
+  apply (db_scan_stable_del plain plain_cmp_lt_eq plain_cmp_antisym plain_cmp_trans).
+  apply C09_db_inv_reachable_bytes.
+Qed.
+Print Assumptions C09_db_scan_stable_del_bytes.
+
+Theorem C09_db_scan_stable_cdel_bytes :
+  forall (ops : list dbop) dslot d' slot k0 v0 fuel,
+    let d := fold_left db_step ops (db_empty plain) in
+    db_cdel d dslot = (ROk, d') -> on_record d slot k0 v0 ->
+    S (length (flat key value (d_chain d))) < fuel ->
+    exists dk, rest_of_scan d' slot fuel = s_del key value (cmp_of plain) (rest_of_scan d slot fuel) dk.
+Proof.
+  intros ops dslot d' slot k0 v0 fuel d.
+  apply (db_scan_stable_cdel plain plain_cmp_lt_eq plain_cmp_antisym plain_cmp_trans).
+  apply C09_db_inv_reachable_bytes.
+Qed.
+Print Assumptions C09_db_scan_stable_cdel_bytes.
+
+(* the same three for integer-key databases *)
+Theorem C09_db_scan_stable_intkeys :
+  forall (ops : list dbop) slot k0 v0 fuel,
+    let d := fold_left db_step ops (db_empty vnummode) in
+    on_record d slot k0 v0 -> S (length (flat key value (d_chain d))) < fuel ->
+    (forall k comp v flags ph d', db_put d k comp v flags ph = (ROk, d') ->
+       exists ek nv, eff_key vnummode k comp = (ROk, ek) /\
+         rest_of_scan d' slot fuel =
+         match cmp_of vnummode k0 ek with
+         | Lt => s_put key value (cmp_of vnummode) (rest_of_scan d slot fuel) ek nv
+         | _ => rest_of_scan d slot fuel
+         end) /\
+    (forall k comp d', db_del d k comp = (ROk, d') ->
+       exists ek, rest_of_scan d' slot fuel = s_del key value (cmp_of vnummode) (rest_of_scan d slot fuel) ek) /\
+    (forall dslot d', db_cdel d dslot = (ROk, d') ->
+       exists dk, rest_of_scan d' slot fuel = s_del key value (cmp_of vnummode) (rest_of_scan d slot fuel) dk).
+Proof.
+  intros ops slot k0 v0 fuel d Hon Hf.
+  pose proof (C09_db_inv_reachable_intkeys ops) as Hinv. fold d in Hinv.
+  split; [|split].
+  - intros k comp v flags ph d' Hp.
+    destruct (db_scan_stable_put vnummode vnum_cmp_lt_eq vnum_cmp_antisym vnum_cmp_trans d k comp v flags ph d' slot k0 v0 fuel Hinv Hp Hon Hf)
+      as [ek [nv [H1 [_ H3]]]]. exists ek, nv. split; assumption.
+  - intros k comp d' Hp.
+    destruct (db_scan_stable_del vnummode vnum_cmp_lt_eq vnum_cmp_antisym vnum_cmp_trans d k comp d' slot k0 v0 fuel Hinv Hp Hon Hf)
+      as [ek [_ H2]]. exists ek. exact H2.
+  - intros dslot d' Hp.
+    exact (db_scan_stable_cdel vnummode vnum_cmp_lt_eq vnum_cmp_antisym vnum_cmp_trans d dslot d' slot k0 v0 fuel Hinv Hp Hon Hf).
+Qed.
+Print Assumptions C09_db_scan_stable_intkeys.
+
+(* Non-vacuity at this level: 40 puts (two splits), a cursor positioned by EQ stands on a record in a reachable state *)
+Definition exdb_ops : list dbop :=
+  map (fun i => OPut [Z.of_nat (100 + i)] 0 [Z.of_nat i] 0 0) (seq 0 40) ++ [OCopen 1 5 (Some ([120%Z], 0%Z))].
+Example C09_db_on_record_example :
+  exists k0 v0, on_record (fold_left db_step exdb_ops (db_empty plain)) 1 k0 v0 /\
+                length (d_chain (fold_left db_step exdb_ops (db_empty plain))) = 2%nat.
+Proof.
+  exists ([120%Z], 0%Z), [20%Z]. split; [|vm_compute; reflexivity].
+  exists {| c_cn := Some {| cc_node := CnNode 1; cc_pnum := 32; cc_p0 := Some 2; cc_n0 := None |};
+            c_pos := 11; c_skip := 0; c_pend := PNone |}, 1, 11.
+  split; [vm_compute; reflexivity|].
+  split; [eexists; split; [reflexivity|split; vm_compute; reflexivity]|]. split; vm_compute; reflexivity.
 Qed.
 
 (* Non-vacuity: a cursor on slot 3 of a node; a record inserted at slot 1 moves it to slot 4, same record. *)
